@@ -1109,6 +1109,68 @@ func c07(r *core.Run) {
 			coreSel = s
 		}
 	}
+	r.Check("D5/K1/ctx-arm-cancels", "when the context is done the MapReduce core cancels before it returns: every path from the ctx.Done() arm of the final select to a return passes a call of cancel (the once-wrapped closure that records the error and closes done/output, or a function running it) - otherwise done and output stay open, the deferred `for range output` keeps the caller blocked until every mapper has returned and the generator stays blocked on the source", func(o *core.O) {
+		if !o.Need(coreSel != nil && len(cancelBodies) > 0, "the MapReduce core's final select and the cancel body") {
+			return
+		}
+		f := coreSel.Parent()
+		kCtx := stateOf(coreSel, func(st *ssa.SelectState) bool { return st.Dir == types.RecvOnly && isCtxDone(st.Chan) })
+		if !o.Need(kCtx >= 0, "ctx.Done() receive state of the final select") {
+			return
+		}
+		isBody := map[*ssa.Function]bool{}
+		for _, cb := range cancelBodies {
+			isBody[cb] = true
+		}
+		runsBody := func(g *ssa.Function) bool {
+			if g == nil {
+				return false
+			}
+			for _, a := range core.WithAnon(g) {
+				if isBody[a] {
+					return true
+				}
+			}
+			return false
+		}
+		closureOfBody := func(v ssa.Value) bool {
+			mc, ok := resolve(v).(*ssa.MakeClosure)
+			return ok && runsBody(mc.Fn.(*ssa.Function))
+		}
+		isCancelCall := func(in ssa.Instruction) bool {
+			c := core.AsCall(in)
+			if c == nil || c.Common().IsInvoke() {
+				return false
+			}
+			// the body handed to something that runs it (sync.Once.Do after the wrapper was inlined)
+			for _, a := range c.Common().Args {
+				if _, isFn := a.Type().Underlying().(*types.Signature); isFn && closureOfBody(a) {
+					return true
+				}
+			}
+			if g := c.Common().StaticCallee(); g != nil && g.Parent() == nil {
+				return runsBody(g) && g != f
+			}
+			v := resolve(c.Common().Value)
+			if closureOfBody(v) {
+				return true
+			}
+			if w, ok := v.(*ssa.Call); ok { // the result of a wrapper such as once(body)
+				for _, a := range w.Call.Args {
+					if closureOfBody(a) {
+						return true
+					}
+				}
+			}
+			return false
+		}
+		arm := selectArm(f, coreSel, kCtx)
+		o.Site(len(arm), core.FuncName(f))
+		if w, ok := core.Reach(core.Q{From: heads(arm), Target: core.IsReturn, Blocked: isCancelCall}); ok {
+			o.Fail(p.InstrPos(w), "the ctx.Done() arm returns without calling cancel: done/output are not closed, the caller stays in its deferred `for range output` until every running mapper returns (the call does not return when the context is done) and the generator is left blocked")
+		}
+	})
+
 	r.Check("D5/K6/result-mapping", "in the MapReduce core's final select: ctx arm returns (nil, context.DeadlineExceeded); output arm returns the recorded cancel error when there is one, else (value, nil) only when a value was received, else ErrReduceNoOutput; no other result", func(o *core.O) {
 		if !o.Need(coreSel != nil, "the two-result function selecting on the panic channel (MapReduce core)") {
 			return
